@@ -538,6 +538,12 @@ StepRegister == [][FrontKind = "plain" => \A k \in AllKeys : LET a == Abs(fs, k)
 StepGetLin == [][last'.e = "sys" /\ last'.api = "get" /\ last'.pcl = "g1" /\ last'.res = "ok" =>
                     fs.inos[last'.ino].c.val = AbsIn(fs, DirOf(last'.path), last'.path.n)]_vars
 
+\* Transition coverage (binding R-lite): the set of (label, call, result) edges of the control flow that are reachable in
+\* a configuration, accumulated in a TLC register (run with -workers 1) and printed by the post-condition; the driver
+\* compares it with the edges real executions took (TraceKismet prints the same triples).
+CoverAC == (last'.e = "sys" => TLCSet(7, TLCGet(7) \cup {<<last'.pcl, last'.call, last'.res>>}))
+CoverInit == TLCSet(7, {})
+
 \* observation variables are kept out of the state space
 View == <<fs, pc, loc, aux.pubs, aux.errs, aux.crashed, aux.advs, aux.rets>>
 =============================================================================
